@@ -69,6 +69,42 @@ func scenC09(r *Run) {
 			zd["name"] = "twin"
 			f.Serve(Z, zd)
 		}
+		if t.Chance(1, 6) {
+			// The owner's outbox hands its first page out to another host, and that page states no id
+			// of its own. Entries embedded there under ids of the owner's host are somebody else's
+			// word about that host: only what the owner's host itself serves under those ids counts.
+			E := otherHost(H, t.Draw(2))
+			var items []CItem
+			for k := 1 + t.Draw(4); k > 0; k-- {
+				n := f.next()
+				actID := fmt.Sprintf("https://%s/act/%d", H, n)
+				_, tok, note := f.note(H, Doc{"attributedTo": X})
+				embedded := Doc{"id": actID, "type": "Create", "actor": X, "object": note}
+				it := CItem{Token: tok, Value: embedded}
+				switch t.Draw(3) {
+				case 0:
+					kinds = append(kinds, "foreign-anonymous-page-embeds-genuine-activity-of-owner-host")
+					f.Serve(actID, embedded)
+				case 1:
+					kinds = append(kinds, "foreign-anonymous-page-embeds-activity-the-owner-host-attributes-to-somebody-else")
+					_, _, ynote := f.note(H, Doc{"attributedTo": Y})
+					f.Serve(actID, Doc{"id": actID, "type": "Create", "actor": Y, "object": ynote})
+					it.Err = true
+				case 2:
+					kinds = append(kinds, "foreign-anonymous-page-embeds-activity-the-owner-host-does-not-have")
+					it.Err = true
+				}
+				items = append(items, it)
+			}
+			l := &CLayout{Host: H, Ordered: true, RootURL: fmt.Sprintf("https://%s/c/%d", H, f.next()), HasFirst: true, CycleTo: -1, Total: -1,
+				Pages: []*CPage{{Items: items, Remote: true, Anonymous: true, URL: fmt.Sprintf("https://%s/c/%d", E, f.next())}}}
+			f.Install(l)
+			_, xd := f.actorDoc(H, xn, l.RootURL)
+			f.Serve(X, xd)
+			r.S.Probe("c09_outbox_page_outsourced_to_other_host")
+			c09Compare(r, f, X, l, kinds, "timeline")
+			return
+		}
 		mk := func(remote bool) CItem {
 			k := t.Draw(12)
 			n := f.next()
@@ -122,7 +158,13 @@ func scenC09(r *Run) {
 			case 8:
 				kind = "impostor-actor-id-differs-slightly"
 				look := X + "/"
-				if t.Chance(1, 2) {
+				if t.Chance(1, 3) {
+					// the same spelling plus a character that no terminal shows (a directional override, a
+					// zero-width space, a soft hyphen, a byte-order mark): a different identifier, and a
+					// different address on the same host
+					look = X + []string{"\u202e", "\u200b", "\u00ad", "\ufeff", "\u200e", "\u2066"}[t.Draw(6)]
+					kind = "impostor-actor-id-differs-by-an-invisible-character"
+				} else if t.Chance(1, 2) {
 					// same host, same path up to the case of one letter: a different resource
 					look = strings.Replace(X, "/a/u", "/a/U", 1)
 					kind = "impostor-actor-id-differs-in-path-case"
